@@ -60,6 +60,8 @@ pub enum Trip {
 
 pub struct SimReader<'a> {
     image: &'a [u8],
+    /// logical offset of the image's first byte (the image may sit far into a larger stream)
+    base: u64,
     pos: u64,
     plan: ReaderPlan,
     rng: Rng,
@@ -87,6 +89,7 @@ impl<'a> SimReader<'a> {
         let len = image.len();
         SimReader {
             image,
+            base: 0,
             pos: 0,
             plan,
             rng: Rng::new(seed),
@@ -117,6 +120,13 @@ impl<'a> SimReader<'a> {
         self
     }
 
+    /// Places the image at a (possibly huge) logical offset; the reader starts there.
+    pub fn at_offset(mut self, base: u64) -> Self {
+        self.base = base;
+        self.pos = base;
+        self
+    }
+
     pub fn with_op_limit(mut self, ops: u64) -> Self {
         self.op_limit = ops;
         self
@@ -131,6 +141,11 @@ impl<'a> SimReader<'a> {
             Some(e) => e.min(self.image.len()),
             None => self.image.len(),
         }
+    }
+
+    /// Position relative to the image start (positions before the base read as zero bytes).
+    pub fn position_in_image(&self) -> i128 {
+        self.pos as i128 - self.base as i128
     }
 
     fn budget(&mut self) -> io::Result<()> {
@@ -201,9 +216,18 @@ impl Read for SimReader<'_> {
             self.note(2, idx, 0, || format!("read({}) -> Interrupted (injected)", buf.len()));
             return Err(io::Error::new(ErrorKind::Interrupted, "simulated EINTR"));
         }
-        let len = self.effective_len() as u64;
+        if self.pos < self.base {
+            // before the image: an unrelated part of the larger stream (zeros)
+            let n = buf.len().min((self.base - self.pos) as usize);
+            for b in &mut buf[..n] {
+                *b = 0;
+            }
+            self.pos += n as u64;
+            return Ok(n);
+        }
+        let len = self.base + self.effective_len() as u64;
         if self.pos >= len {
-            if self.plan.eof_at.is_some() && (self.pos as usize) < self.image.len() {
+            if self.plan.eof_at.is_some() && ((self.pos - self.base) as usize) < self.image.len() {
                 self.eof_hits += 1;
             }
             let pos = self.pos;
@@ -222,7 +246,7 @@ impl Read for SimReader<'_> {
         if n < buf.len() && self.plan.eof_at.is_some() && n == avail {
             self.eof_hits += 1;
         }
-        let p = self.pos as usize;
+        let p = (self.pos - self.base) as usize;
         buf[..n].copy_from_slice(&self.image[p..p + n]);
         self.pos += n as u64;
         self.bytes_served += n as u64;
@@ -249,7 +273,7 @@ impl Seek for SimReader<'_> {
                 self.note(4, n, 0, || format!("seek(Start({})) -> {}", n, n));
                 return Ok(n);
             }
-            SeekFrom::End(n) => (self.effective_len() as u64, n),
+            SeekFrom::End(n) => (self.base + self.effective_len() as u64, n),
             SeekFrom::Current(n) => (self.pos, n),
         };
         match base.checked_add_signed(offset) {
